@@ -543,47 +543,51 @@ def skipBracket (c : List Nat) (endO : Nat) : Nat → Nat → Except Fault Nat
       if ch ≠ cBClose then skipBracket c endO f off else .ok off
     else .ok off
 
+/-- the `switch (content[offset])` of `getOperation`, as a classification of the unit -/
+inductive OpChar where
+  | two (yes no : Op) (second : Nat)   -- `||` `&&` `>=` `<=` `!=` `==`: look at the next unit
+  | sign (op : Op)                      -- `-` `+`: operator only after an operand
+  | single (op : Op)                    -- `/` `*` `%` `^`
+  | paren | bracket | other
+
+def classify (ch : Nat) : OpChar :=
+  if ch = cOr then .two .or .bitOr cOr
+  else if ch = cAnd then .two .and .bitAnd cAnd
+  else if ch = cGreater then .two .greaterOrEqual .greater cEq
+  else if ch = cLess then .two .lessOrEqual .less cEq
+  else if ch = cNot then .two .notEqual .error cEq
+  else if ch = cEq then .two .equal .error cEq
+  else if ch = cSub then .sign .sub
+  else if ch = cAdd then .sign .add
+  else if ch = cDiv then .single .div
+  else if ch = cMul then .single .mul
+  else if ch = cRem then .single .rem
+  else if ch = cExp then .single .exp
+  else if ch = cPOpen then .paren
+  else if ch = cBOpen then .bracket
+  else .other
+
 /-- `getOperation(content, offset, end_offset)` → (operation, new offset) -/
 def getOperation (c : List Nat) (endO : Nat) : Nat → Nat → Except Fault (Op × Nat)
   | 0, _ => .error .fuel
   | f + 1, off =>
     if off < endO then do
       let ch ← rd c off
-      if ch = cOr then do
+      match classify ch with
+      | .two yes no second => do
         let nx ← rd c (off + 1)
-        .ok (if nx = cOr then .or else .bitOr, off)
-      else if ch = cAnd then do
-        let nx ← rd c (off + 1)
-        .ok (if nx = cAnd then .and else .bitAnd, off)
-      else if ch = cGreater then do
-        let nx ← rd c (off + 1)
-        .ok (if nx = cEq then .greaterOrEqual else .greater, off)
-      else if ch = cLess then do
-        let nx ← rd c (off + 1)
-        .ok (if nx = cEq then .lessOrEqual else .less, off)
-      else if ch = cNot then do
-        let nx ← rd c (off + 1)
-        .ok (if nx = cEq then .notEqual else .error, off)
-      else if ch = cEq then do
-        let nx ← rd c (off + 1)
-        .ok (if nx = cEq then .equal else .error, off)
-      else if ch = cSub then do
+        .ok (if nx = second then yes else no, off)
+      | .sign op => do
         let b ← isExpression c off
-        if b then .ok (.sub, off) else getOperation c endO f (off + 1)
-      else if ch = cAdd then do
-        let b ← isExpression c off
-        if b then .ok (.add, off) else getOperation c endO f (off + 1)
-      else if ch = cDiv then .ok (.div, off)
-      else if ch = cMul then .ok (.mul, off)
-      else if ch = cRem then .ok (.rem, off)
-      else if ch = cExp then .ok (.exp, off)
-      else if ch = cPOpen then do
+        if b then .ok (op, off) else getOperation c endO f (off + 1)
+      | .single op => .ok (op, off)
+      | .paren => do
         let off2 ← skipParen c endO (endO + 1) (off + 1) 0
         if off2 < endO then getOperation c endO f off2 else .ok (.error, off2)
-      else if ch = cBOpen then do
+      | .bracket => do
         let off2 ← skipBracket c endO (endO + 1) off
         if off2 < endO then getOperation c endO f off2 else .ok (.error, endO)
-      else getOperation c endO f (off + 1)
+      | .other => getOperation c endO f (off + 1)
     else .ok (.noOp, off)
 
 def isWs (ch : Nat) : Bool := ch = 32 || ch = 10 || ch = 9 || ch = 13
